@@ -35,7 +35,7 @@ CLASSES = [
 # the child slots of each class that hold tables / terms: the SPECIFICATION side (subst_table visits all of them).
 # `_cases` is split into its two components.
 SLOTS = {
-    "KField": ["table"], "KStar": ["table"], "KValue": [], "KLiteral": [], "KParam": [], "KNeg": ["term"],
+    "KField": ["table"], "KStar": ["table"], "KValue": ["value"], "KLiteral": [], "KParam": [], "KNeg": ["term"],
     "KArith": ["left", "right"], "KBasic": ["left", "right"], "KCplx": ["left", "right"], "KIn": ["term", "container"],
     "KBetween": ["term", "start", "end"], "KPeriod": ["term", "start", "end"], "KBitAnd": ["term"],
     "KIsNull": ["term"], "KNotNull": ["term"], "KNot": ["term"], "KAll": ["term"], "KEmpty": [],
@@ -52,7 +52,6 @@ SLOTS = {
 # attributes that hold nodes but are deliberately outside the model (with the reason)
 IGNORED = {
     "KBitAnd": {"value": "a ValueWrapper around a number: no table below it"},
-    "KValue": {"value": "payload; a Term payload is exercised by the python-only oracle family"},
     "KExtract": {"args": "inherited from Function; the constructor only ever puts the date-part literal there"},
     "KQuery": {"_using": "PostgreSQL DELETE..USING tables (python-only oracle family)", "_force_indexes": "Index terms: no table",
                "_use_indexes": "Index terms: no table", "_unions": "unused attribute"},
@@ -152,6 +151,25 @@ class _M:
     def is_new(self, n):
         return isinstance(n, ast.Name) and n.id == self.new
 
+    def enter_if_term(self, n, subject):
+        """n == (subject.replace_table(cur, new) if isinstance(subject, Term) else subject)"""
+        if not isinstance(n, ast.IfExp):
+            return False
+        return self.is_term_test(n.test, subject) and self.rt_call(n.body) is not None and _same(self.rt_call(n.body), subject) \
+            and _same(n.orelse, subject)
+
+    @staticmethod
+    def is_term_test(t, subject):
+        return (isinstance(t, ast.Call) and isinstance(t.func, ast.Name) and t.func.id == "isinstance" and len(t.args) == 2
+                and not t.keywords and _same(t.args[0], subject) and isinstance(t.args[1], ast.Name) and t.args[1].id == "Term")
+
+    def select_if_eq_enter(self, n, subject):
+        """n == (new if subject == cur else (subject.replace_table(..) if isinstance(subject, Term) else subject))"""
+        if not isinstance(n, ast.IfExp):
+            return False
+        x = self.eq_cur(n.test)
+        return x is not None and _same(x, subject) and self.is_new(n.body) and self.enter_if_term(n.orelse, subject)
+
     def select_if_eq(self, n, subject):
         """n == (new if subject == cur else subject)"""
         if not isinstance(n, ast.IfExp):
@@ -169,9 +187,13 @@ def _one_gen(lc):
     return g
 
 
+MODES = {}      # (method owner, attribute) -> "call" | "cmp" | "rebuild": how the slot's elements are handled
+
+
 def _stmt_effect(m, st):
     """effect of one statement of a @builder replace_table body: list of visited slot names"""
     w = m.where
+    owner = w.split(".")[0]
     if isinstance(st, ast.If):
         # if cur in self._select_star_tables: self._select_star_tables.remove(cur); self._select_star_tables.add(new)
         t = st.test
@@ -186,6 +208,19 @@ def _stmt_effect(m, st):
                     calls.append((b.value.func.attr, b.value.args[0].id))
             if attr and sorted(calls) == sorted([("remove", m.cur), ("add", m.new)]):
                 return [attr]
+        # if self.X == cur: self.X = new
+        # elif isinstance(self.X, Term): self.X = self.X.replace_table(cur, new)
+        subj = m.eq_cur(t)
+        if subj is not None and _self_attr(subj) and len(st.body) == 1 and len(st.orelse) == 1 and isinstance(st.orelse[0], ast.If):
+            attr = _self_attr(subj)
+            b, e2 = st.body[0], st.orelse[0]
+            ok1 = isinstance(b, ast.Assign) and len(b.targets) == 1 and _same(b.targets[0], subj) and m.is_new(b.value)
+            ok2 = (m.is_term_test(e2.test, subj) and not e2.orelse and len(e2.body) == 1 and isinstance(e2.body[0], ast.Assign)
+                   and len(e2.body[0].targets) == 1 and _same(e2.body[0].targets[0], subj)
+                   and m.rt_call(e2.body[0].value) is not None and _same(m.rt_call(e2.body[0].value), subj))
+            if ok1 and ok2:
+                MODES[(owner, attr)] = "cmp_enter"
+                return [attr]
         raise ExtractError("%s: unrecognised if-statement: %s" % (w, ast.unparse(st)[:200]))
     if not (isinstance(st, ast.Assign) and len(st.targets) == 1):
         raise ExtractError("%s: unrecognised statement: %s" % (w, ast.unparse(st)[:200]))
@@ -198,6 +233,7 @@ def _stmt_effect(m, st):
     r = m.rt_call(v)
     if r is not None:
         if _same(r, me):
+            MODES[(owner, attr)] = "call"
             return [attr]
         raise ExtractError("%s: self.%s is assigned from another slot: %s" % (w, attr, ast.unparse(st)[:200]))
     if isinstance(v, ast.IfExp):
@@ -208,6 +244,7 @@ def _stmt_effect(m, st):
             return [attr]
         # self.X = new if self.X == cur else self.X
         if m.select_if_eq(v, me):
+            MODES[(owner, attr)] = "cmp"
             return [attr]
         raise ExtractError("%s: unrecognised conditional: %s" % (w, ast.unparse(st)[:200]))
     if isinstance(v, ast.ListComp):
@@ -219,9 +256,34 @@ def _stmt_effect(m, st):
             x = g.target
             r = m.rt_call(e)
             if r is not None and _same(r, x):                      # [x.replace_table(..) for x in self.X]
+                MODES[(owner, attr)] = "call"
                 return [attr]
             if m.select_if_eq(e, x):                               # [new if x == cur else x for x in self.X]
+                MODES[(owner, attr)] = "cmp"
                 return [attr]
+            if m.select_if_eq_enter(e, x):     # [new if x == cur else (x.replace_table(..) if isinstance(x, Term) else x) ..]
+                MODES[(owner, attr)] = "cmp_enter"
+                return [attr]
+            if isinstance(e, ast.IfExp):
+                # [x.replace_table(..) if hasattr(x, "replace_table") else x for x in self.X]
+                t_ = e.test
+                r = m.rt_call(e.body)
+                if (isinstance(t_, ast.Call) and isinstance(t_.func, ast.Name) and t_.func.id == "hasattr" and len(t_.args) == 2
+                        and _same(t_.args[0], x) and isinstance(t_.args[1], ast.Constant) and t_.args[1].value == "replace_table"
+                        and r is not None and _same(r, x) and _same(e.orelse, x)):
+                    MODES[(owner, attr)] = "call"
+                    return [attr]
+                # [AliasedQuery(x.name, x.query.replace_table(..)) if isinstance(x.query, Term) else x for x in self.X]
+                def xattr(n, a):
+                    return isinstance(n, ast.Attribute) and n.attr == a and _same(n.value, x)
+                b_ = e.body
+                if (isinstance(t_, ast.Call) and isinstance(t_.func, ast.Name) and t_.func.id == "isinstance" and len(t_.args) == 2
+                        and xattr(t_.args[0], "query") and isinstance(t_.args[1], ast.Name) and t_.args[1].id == "Term"
+                        and isinstance(b_, ast.Call) and isinstance(b_.func, ast.Name) and b_.func.id == "AliasedQuery"
+                        and not b_.keywords and len(b_.args) == 2 and xattr(b_.args[0], "name")
+                        and m.rt_call(b_.args[1]) is not None and xattr(m.rt_call(b_.args[1]), "query") and _same(e.orelse, x)):
+                    MODES[(owner, attr)] = "rebuild"
+                    return [attr]
             if isinstance(e, ast.ListComp):                        # [[y.replace_table(..) for y in x] for x in self.X]
                 g2 = _one_gen(e)
                 r = m.rt_call(e.elt)
@@ -238,16 +300,29 @@ def _stmt_effect(m, st):
         elif isinstance(g.target, ast.Tuple) and len(g.target.elts) == 2 and isinstance(e, (ast.List, ast.Tuple)) \
                 and len(e.elts) == 2 and all(isinstance(t, ast.Name) for t in g.target.elts):
             # [[c.replace_table(..), t.replace_table(..)] for c, t in self._cases]
-            out = []
-            for comp, var, tag in zip(e.elts, g.target.elts, ("_crit", "_term")):
+            #   _cases: two slots;  _orderbys: (term, direction) - the direction is copied;  _updates: one slot, both parts
+            hit_ = []
+            for comp, var in zip(e.elts, g.target.elts):
                 r = m.rt_call(comp)
                 if r is not None and _same(r, var):
-                    out.append(attr + tag)
+                    hit_.append(True)
                 elif _same(comp, var):
-                    pass                                           # component copied unchanged: not visited
+                    hit_.append(False)                             # component copied unchanged: not visited
                 else:
                     raise ExtractError("%s: unrecognised pair component: %s" % (w, ast.unparse(st)[:200]))
-            return out
+            if attr == "_cases":
+                return [attr + tag for tag, h in zip(("_crit", "_term"), hit_) if h]
+            if attr == "_orderbys":
+                if hit_ == [True, False]:
+                    return [attr]
+                if hit_ == [False, False]:
+                    return []
+            if attr == "_updates":
+                if hit_ == [True, True]:
+                    return [attr]
+                if hit_ == [False, False]:
+                    return []
+            raise ExtractError("%s: unexpected pair handling %s: %s" % (w, hit_, ast.unparse(st)[:200]))
         raise ExtractError("%s: unrecognised comprehension: %s" % (w, ast.unparse(st)[:200]))
     raise ExtractError("%s: unrecognised assignment: %s" % (w, ast.unparse(st)[:200]))
 
@@ -425,7 +500,7 @@ def _samples():
     sub = lambda slot, s: Query.from_(A() if slot in (s, None) else C).select("x")    # noqa: E731
     return {
         "KField": lambda s: T.Field("x", table=A()), "KStar": lambda s: T.Star(A()),
-        "KValue": lambda s: T.ValueWrapper(1), "KLiteral": lambda s: T.LiteralValue("L"), "KParam": lambda s: T.Parameter("?"),
+        "KValue": lambda s: T.ValueWrapper(f(s, "value")), "KLiteral": lambda s: T.LiteralValue("L"), "KParam": lambda s: T.Parameter("?"),
         "KNeg": lambda s: T.Negative(f(s, "term")),
         "KArith": lambda s: T.ArithmeticExpression(E.Arithmetic.add, f(s, "left"), f(s, "right")),
         "KBasic": lambda s: T.BasicCriterion(E.Equality.eq, f(s, "left"), f(s, "right")),
@@ -496,6 +571,7 @@ def has_method(cls):
 
 def extract_table():
     from pypika.queries import AliasedQuery, Table
+    MODES.clear()
     visited = {}
     notes = []
     for ctor, mod, name in CLASSES:
@@ -522,15 +598,40 @@ def extract_table():
         for s in SLOTS[ctor]:
             got = dynamic_probe(ctor, s)
             static = s in visited[ctor]
-            if ctor in ("KQuery", "KClickHouse") and s == "_with":
+            if ctor in ("KQuery", "KClickHouse") and s == "_with" and MODES.get(("QueryBuilder", "_with")) == "call":
                 exp = "TypeError" if static else "kept"       # AliasedQuery has no replace_table: calling it raises
-            elif ctor == "KJoin" and s == "item":
+            elif ctor == "KJoin" and s == "item" and MODES.get(("Join", "item")) == "call":
                 exp = "TypeError" if static else "kept"       # Table has no replace_table
             else:
                 exp = "replaced" if static else "kept"
             if got != exp:
                 raise ExtractError("static and dynamic analysis disagree on %s.%s: static says %s, probing gives %s"
                                    % (name, s, "visited" if static else "not visited", got))
+    # a sub-query sitting in a FROM / join-item slot: entered exactly when the mode says so
+    from pypika import Query, Table as _T
+    import pypika.enums as E_
+    from pypika.queries import Join, JoinOn, JoinUsing
+    import pypika.terms as T_
+
+    def subq():
+        q = Query.from_(_T("a")).select("k")
+        q.alias = "sq"
+        return q
+    objs = {
+        ("QueryBuilder", "_from"): lambda: Query.from_(subq()).select("x"),
+        ("Join", "item"): lambda: Join(subq(), E_.JoinType.cross),
+        ("JoinOn", "item"): lambda: JoinOn(subq(), E_.JoinType.inner, T_.Field("k")),
+        ("JoinUsing", "item"): lambda: JoinUsing(subq(), E_.JoinType.inner, [T_.Field("k")]),
+    }
+    ctor_of = {"QueryBuilder": "KQuery", "Join": "KJoin", "JoinOn": "KJoinOn", "JoinUsing": "KJoinUsing"}
+    for (own, at), mk in objs.items():
+        if at not in visited[ctor_of[own]]:
+            continue
+        mode = MODES.get((own, at))
+        res = mk().replace_table(_T("a"), _T("b"))
+        entered = not reach_tables(res, lambda t: t == _T("a"))
+        if entered != (mode in ("call", "cmp_enter")):
+            raise ExtractError("%s.%s: mode %s but a sub-query element is %s" % (own, at, mode, "entered" if entered else "kept"))
     return visited, notes
 
 
@@ -574,6 +675,26 @@ def render_table(visited, notes):
                "yields a Field, and calling that raises TypeError *)")
     out.append("Definition with_items_replaceable : bool := false.")
     out.append("Definition table_item_replaceable : bool := false.")
+    out.append("(* how QueryBuilder._with and Join.item are handled: by calling replace_table on the element itself (true), or by "
+               "rebuilding AliasedQuery(name, query.replace_table(..)) / comparing the item with == (false) *)")
+    out.append("Definition with_by_call : bool := %s." % ("true" if MODES.get(("QueryBuilder", "_with"), "call") == "call" else "false"))
+    out.append("(* how a FROM entry / a join item is handled: MCall = item.replace_table(..) is called; MCmp = compared with ==, a "
+               "sub-query is never entered; MCmpEnter = compared, otherwise entered when it is a Term (a sub-query) *)")
+    out.append("Inductive srcmode := MCall | MCmp | MCmpEnter.")
+    mm = {"call": "MCall", "cmp": "MCmp", "cmp_enter": "MCmpEnter"}
+    fm = MODES.get(("QueryBuilder", "_from"), "cmp")
+    if fm == "call":
+        raise ExtractError("QueryBuilder._from handled by a method call: not a form the model knows")
+    for o_ in ("JoinOn", "JoinUsing"):
+        if MODES.get((o_, "item"), "cmp") == "call":
+            raise ExtractError("%s.item handled by a method call: not a form the model knows" % o_)
+    out.append("Definition src_mode (k : ctor) : srcmode := match k with")
+    out.append("  | KQuery | KClickHouse => %s" % mm[fm])
+    out.append("  | KJoin => %s" % mm[MODES.get(("Join", "item"), "cmp")])
+    out.append("  | KJoinOn => %s" % mm[MODES.get(("JoinOn", "item"), "cmp")])
+    out.append("  | KJoinUsing => %s" % mm[MODES.get(("JoinUsing", "item"), "cmp")])
+    out.append("  | _ => MCmp")
+    out.append("  end.")
     out.append("(*")
     out += ["  " + n for n in notes]
     out.append("*)")
